@@ -1,17 +1,16 @@
 import SeaQ.Model.Ident
+import SeaQ.Model.CharClass
+import SeaQ.Gen.ValidIden
 /-!
 Model of the naming logic of `sea-query-derive` (`derive(Iden)`, `derive(IdenStatic)`,
 `#[enum_def]`): heck 0.4's `to_snake_case` / `to_pascal_case` on ASCII identifiers (the crate
 depends on heck with `default-features = false`, so words are split at every
-non-alphanumeric character), `must_be_valid_iden`, and the choice between a variant's
+non-alphanumeric character), `must_be_valid_iden` (translated from the source: `Gen/ValidIden`), and the choice between a variant's
 rename / method / default name.  Non-ASCII identifiers are outside the model.
 -/
 namespace SeaQ.Derive
 
-def isUpper (c : Char) : Bool := 'A' ≤ c && c ≤ 'Z'
-def isLower (c : Char) : Bool := 'a' ≤ c && c ≤ 'z'
-def isDigit (c : Char) : Bool := '0' ≤ c && c ≤ '9'
-def isAlnum (c : Char) : Bool := isUpper c || isLower c || isDigit c
+export SeaQ.CharClass (isUpper isLower isDigit isAlpha isAlnum)
 def toLower (c : Char) : Char := if isUpper c then Char.ofNat (c.toNat + 32) else c
 def toUpper (c : Char) : Char := if isLower c then Char.ofNat (c.toNat - 32) else c
 
@@ -48,9 +47,8 @@ def capitalize : List Char → List Char
 /-- `to_pascal_case` -/
 def pascal (s : List Char) : List Char := ((words s).map capitalize).flatten
 
-/-- `must_be_valid_iden` -/
-def mustBeValidIden (n : List Char) : Bool :=
-  (n.take 1).all (fun c => c == '_' || isUpper c || isLower c) && n.all (fun c => c == '_' || isAlnum c)
+/-- `must_be_valid_iden`: regenerated from the macro crate's source on every run -/
+abbrev mustBeValidIden (n : List Char) : Bool := SeaQ.Gen.ValidIden.mustBeValidIden n
 
 inductive Attr where
   | rename (name : List Char)
